@@ -1873,6 +1873,50 @@ def _path_ends_with(it, c, a):
     return BoolV(all(_comp_eq(it, x, y) for x, y in zip(other, p_.comps[len(p_.comps) - len(other):])))
 
 
+def _wrapping(op):
+    def f(it, c, a):
+        x, y = deref(a[0]), deref(a[1])
+        if not (isinstance(x, IntV) and isinstance(y, IntV)):
+            return NotImplemented
+        bits = x.bits; mask = (1 << bits) - 1
+        if not x.sym() and not y.sym():
+            v = {'sub': x.v - y.v, 'add': x.v + y.v, 'mul': x.v * y.v}[op] & mask
+            return IntV(v, bits, x.signed)
+        xz, yz = x.z(), y.z()
+        return IntV(z3.simplify({'sub': xz - yz, 'add': xz + yz, 'mul': xz * yz}[op]), bits, x.signed)
+    return f
+
+
+for _ty in ('u8', 'u16', 'u32', 'u64', 'usize', 'i32', 'i64'):
+    for _op in ('sub', 'add', 'mul'):
+        M['%s::wrapping_%s' % (_ty, _op)] = _wrapping(_op)
+
+
+def _checked_shl(it, c, a):
+    x, sh = deref(a[0]), deref(a[1])
+    if not (isinstance(x, IntV) and isinstance(sh, IntV)):
+        return NotImplemented
+    bits = x.bits
+    if not sh.sym():
+        if sh.v >= bits:
+            return none()
+        if not x.sym():
+            return some(IntV((x.v << sh.v) & ((1 << bits) - 1), bits, x.signed))
+        return some(IntV(z3.simplify(x.z() << sh.v), bits, x.signed))
+    if it.choose_bool(BoolV(z3.UGE(sh.v, bits))):
+        return none()
+    shz = sh.v
+    if shz.size() < bits:
+        shz = z3.ZeroExt(bits - shz.size(), shz)
+    elif shz.size() > bits:
+        shz = z3.Extract(bits - 1, 0, shz)
+    return some(IntV(z3.simplify(x.z() << shz), bits, x.signed))
+
+
+for _ty in ('u8', 'u16', 'u32', 'u64', 'usize'):
+    M['%s::checked_shl' % _ty] = _checked_shl
+
+
 @model('<bool as Not>::not', '<&bool as Not>::not')
 def _bool_not(it, c, a):
     v = deref(a[0])
